@@ -4,6 +4,7 @@ import (
 	"crypto/sha256"
 	"fmt"
 	"go/token"
+	"math/big"
 	"go/types"
 	"os"
 	"path/filepath"
@@ -203,6 +204,8 @@ func (e *Engine) lookupRule(h *Harness, fn *ssa.Function, name string) (Rule, bo
 					}
 					return w.callFunc(m, nil, args)
 				}, true
+			case strings.HasPrefix(spec, "uf:"):
+				return ufRule(spec[3:]), true
 			case strings.HasPrefix(spec, "rule:"):
 				if r, ok := e.rules[spec[5:]]; ok {
 					return r, true
@@ -281,7 +284,7 @@ func (e *Engine) Explore(h *Harness, workers int) *Result {
 	res.Solver.ByBackend = map[string]int{}
 	var mu sync.Mutex
 	cond := sync.NewCond(&mu)
-	queue := [][]Decision{nil}
+	queue := []Pending{{}}
 	active := 0
 	paths := 0
 	maxPaths := h.MaxPaths
@@ -290,6 +293,22 @@ func (e *Engine) Explore(h *Harness, workers int) *Result {
 	}
 	funcs := map[*ssa.Function]bool{}
 	var wg sync.WaitGroup
+	if os.Getenv("GOSX_PROGRESS") != "" {
+		stop := make(chan struct{})
+		defer close(stop)
+		go func() {
+			for {
+				select {
+				case <-stop:
+					return
+				case <-time.After(10 * time.Second):
+					mu.Lock()
+					fmt.Fprintf(os.Stderr, "[progress] %s: %d paths done, %d queued, %d active, %.0fs\n", h.Name, len(res.Paths), len(queue), active, time.Since(t0).Seconds())
+					mu.Unlock()
+				}
+			}
+		}()
+	}
 	for i := 0; i < workers; i++ {
 		wg.Add(1)
 		go func() {
@@ -401,21 +420,29 @@ func newWorker(e *Engine, h *Harness) *W {
 	if to == 0 {
 		to = 10000
 	}
-	w := &W{E: e, C: c, S: smt.NewSolver(c, to), H: h,
+	// the incremental z3 gets a short cap; undecided queries go to the racing
+	// portfolio (Int translation, cvc5, z3 5.1) with the full budget
+	prim := 3000
+	if h.Thorough {
+		prim = 8000
+	}
+	if prim > to {
+		prim = to
+	}
+	w := &W{E: e, C: c, S: smt.NewSolver(c, prim), H: h,
 		globals: map[*ssa.Global]*Cell{}, initDone: map[*ssa.Package]bool{},
 		funcsHit: map[*ssa.Function]bool{}, stubsHit: map[string]int{}}
+	w.S.FbTimeout = 60
 	if to >= 60000 {
 		w.S.FbTimeout = to / 1000
 	}
 	return w
 }
 
-func (w *W) resetPath(prefix []Decision) {
-	if w.globalsDirty {
-		w.globals = map[*ssa.Global]*Cell{}
-		w.initDone = map[*ssa.Package]bool{}
-		w.globalsDirty = false
-	}
+func (w *W) resetPath(pp Pending) {
+	prefix := pp.Prefix
+	w.model, w.modelMemo, w.known = pp.Model, nil, nil
+	w.undoGlobals()
 	w.prefix, w.pos = prefix, 0
 	w.trace = w.trace[:0]
 	w.pending = nil
@@ -432,7 +459,7 @@ func (w *W) resetPath(prefix []Decision) {
 	w.curPos = token.NoPos
 }
 
-func (w *W) runPath(fn *ssa.Function, prefix []Decision) (ps PathSummary, asserts []AssertRec, pending [][]Decision) {
+func (w *W) runPath(fn *ssa.Function, prefix Pending) (ps PathSummary, asserts []AssertRec, pending []Pending) {
 	w.resetPath(prefix)
 	w.S.PopTo(0)
 	w.S.Push()
@@ -472,8 +499,15 @@ func (w *W) runPath(fn *ssa.Function, prefix []Decision) (ps PathSummary, assert
 		}
 		if ps.Status == "done" || ps.Status == "panic" {
 			// witness for the whole path (reachability + native validation)
-			if r := w.S.Check(); r == smt.Sat {
-				if m, err := w.S.Model(w.nondetTerms()); err == nil {
+			var r smt.Result
+			var pm map[string]*big.Int
+			if w.model != nil && !w.replaying() {
+				r, pm = smt.Sat, w.model
+			} else if r = w.S.Check(); r == smt.Sat {
+				pm, _ = w.S.Model(w.nondetTerms())
+			}
+			if r == smt.Sat {
+				if m := pm; m != nil {
 					ps.Witness = w.modelStrings(m)
 					// observed values under this witness
 					for i, o := range w.obsTerms {
